@@ -255,6 +255,25 @@ where
         Ok(())
     }
 
+    /// Removes the vring's current kick fd, if any, from the epoll instance.
+    fn unregister_vring_kick(&self, vring: &T::Vring, index: u8) {
+        let vring_state = vring.get_ref();
+        if let Some(fd) = vring_state.get_kick() {
+            for (thread_index, queues_mask) in self.queues_per_thread.iter().enumerate() {
+                let shifted_queues_mask = queues_mask >> index;
+                if shifted_queues_mask & 1u64 == 1u64 {
+                    let evt_idx = queues_mask.count_ones() - shifted_queues_mask.count_ones();
+                    let _ = self.handlers[thread_index].unregister_event(
+                        fd.as_raw_fd(),
+                        EventSet::IN,
+                        u64::from(evt_idx),
+                    );
+                    break;
+                }
+            }
+        }
+    }
+
     /// Helper to check if VirtioFeature enabled
     fn check_feature(&self, feat: VhostUserVirtioFeatures) -> VhostUserResult<()> {
         if self.acked_features & feat.bits() != 0 {
@@ -506,6 +525,11 @@ where
             .get(index as usize)
             .ok_or(VhostUserError::InvalidParam)?;
 
+        // The kick fd being replaced has to leave the epoll instance while it is still open:
+        // closing it does not remove it as long as the frontend keeps its end of the eventfd,
+        // and the worker would then serve its events by reading the new fd.
+        self.unregister_vring_kick(vring, index);
+
         // SAFETY: EventFd requires that it has sole ownership of its fd. So
         // does File, so this is safe.
         // Ideally, we'd have a generic way to refer to a uniquely-owned fd,
@@ -516,6 +540,9 @@ where
 
         if self.vring_needs_init(vring) {
             self.initialize_vring(vring, index)?;
+        } else {
+            // The vring is already started: the new kick fd takes the place of the old one.
+            self.update_vring_registration(vring, index)?;
         }
 
         Ok(())
